@@ -158,8 +158,29 @@ def _sanitize_range(_range, units):
     return new_range.squeeze()
 
 
+def _sanitize_bins(bins, units):
+    # helper function to histogram* functions: bin edges given as quantities
+    # are expressed in the units of the data they bin
+    def strip(edges, u):
+        if hasattr(edges, "units"):
+            return edges.to_value(NULL_UNIT if u is None else u)
+        if isinstance(edges, (list, tuple)) and any(hasattr(e, "units") for e in edges):
+            return [strip(e, u) for e in edges]
+        return edges
+
+    if len(units) == 1:
+        return strip(bins, units[0])
+    if hasattr(bins, "units"):
+        # one set of edges for every dimension
+        return [strip(bins, u) for u in units]
+    if isinstance(bins, (list, tuple)) and len(bins) == len(units):
+        return [strip(b, u) for b, u in zip(bins, units)]
+    return bins
+
+
 def _histogram(a, *, bins=10, range=None, density=None, weights=None, normed=None):
     range = _sanitize_range(range, units=[getattr(a, "units", None)])
+    bins = _sanitize_bins(bins, units=[getattr(a, "units", None)])
     if NUMPY_VERSION >= Version("1.24"):
         counts, bins = np.histogram._implementation(
             np.asarray(a),
@@ -205,6 +226,9 @@ else:
 def _histogram2d(x, y, *, bins=10, range=None, density=None, weights=None, normed=None):
     range = _sanitize_range(
         range, units=[getattr(x, "units", None), getattr(y, "units", None)]
+    )
+    bins = _sanitize_bins(
+        bins, units=[getattr(x, "units", None), getattr(y, "units", None)]
     )
     if NUMPY_VERSION >= Version("1.24"):
         counts, xbins, ybins = np.histogram2d._implementation(
@@ -265,6 +289,7 @@ def _histogramdd(
     sample, *, bins=10, range=None, density=None, weights=None, normed=None
 ):
     range = _sanitize_range(range, units=[getattr(_, "units", None) for _ in sample])
+    bins = _sanitize_bins(bins, units=[getattr(_, "units", None) for _ in sample])
     if NUMPY_VERSION >= Version("1.24"):
         counts, bins = np.histogramdd._implementation(
             [np.asarray(_) for _ in sample],
@@ -325,6 +350,10 @@ else:
 
 @implements(np.histogram_bin_edges)
 def histogram_bin_edges(a, *args, **kwargs):
+    if args:
+        args = (_sanitize_bins(args[0], units=[a.units]),) + args[1:]
+    elif "bins" in kwargs:
+        kwargs["bins"] = _sanitize_bins(kwargs["bins"], units=[a.units])
     return (
         np.histogram_bin_edges._implementation(np.asarray(a), *args, **kwargs) * a.units
     )
